@@ -34,7 +34,7 @@ STR = "strings are concatenations of atoms of an uninterpreted sort with attribu
 NET = "net.ResolveTCPAddr is nondeterministic in its address argument (success returns a non-nil *TCPAddr, failure returns (nil *TCPAddr, err)); net.ResolveUnixAddr(\"unix\", x) never fails"
 CRYPTO = "base64 decoding and x509 parsing are uninterpreted predicates of the field (with realisability facts); CertPool is opaque"
 ENGINE = "Trusted: z3 4.8.12; the SSA interpreter and the environment models of DESIGN.md section 4 (each listed in the evidence file)."
-WORLD = ["prims.go", "w_base.go", "w_net.go", "w_yamux.go", "w_grpc.go", "w_compose.go", "w_harness.go"]
+WORLD = ["prims.go", "m_print.go", "w_base.go", "w_net.go", "w_yamux.go", "w_grpc.go", "w_compose.go", "w_harness.go"]
 WORLD_ASSUME = ["world model (harness/w_*.go): processes with per-process environment, pipes, ghost file system, listeners and connections by address, yamux sessions/streams as FIFO pairs, net/rpc calls served by the real receiver in a goroutine of the peer process with marshalled (copied) arguments, gRPC cut at the generated-code interfaces (real broker/controller/stdio implementations registered and served), crypto/tls as a contract over tls.Config fields with certificates as identities",
                 "the plugin process runs go-plugin's real Serve; the host runs the real NewClient/Start/Client/Dispense/Kill; launch through a RunnerFunc runner or through exec.Cmd models under the real CmdRunner"]
 WORLD_STUBS = ["os/exec", "os (files, pipes, env, exit)", "net", "bufio", "io.Copy", "context", "crypto/tls", "crypto/x509", "encoding/base64", "generateCert", "yamux", "net/rpc", "grpc", "health/reflection registration", "cmdrunner.additionalNotesAboutCommand"]
@@ -97,7 +97,7 @@ prop("C10", ["prims.go", "c10.go"],
 # ------------------------------------------------------------------------------------------------ C16
 GHOSTFS = "ghost file system and listener registry: net.Listen on a unix path adds the path; closing the rmListener removes it; os.MkdirTemp/CreateTemp create fresh unique names; os.Remove/RemoveAll delete"
 EXIT = "os.Exit(n) ends every goroutine of the modelled plugin process and records the status"
-prop("C16", ["prims.go", "c16.go"],
+prop("C16", ["prims.go", "m_print.go", "c16.go"],
      [run("serve", "harnessC16", ["refused", "serving"],
           quick={"bound": "net/rpc plugin; configured cookie key empty or not; configured and environment cookie values arbitrary strings; PLUGIN_MULTIPLEX_GRPC unset / \"true\" / other; PLUGIN_CLIENT_CERT set or not"})],
      [GHOSTFS, EXIT, STR, "crypto (generateCert, X509KeyPair, CertPool) opaque; os.Pipe/os.Stdout swap modelled; signal.Notify no-op"],
@@ -131,9 +131,9 @@ prop("C19", ["prims.go", "c17.go"],
 prop("C15", ["prims.go", "c15.go"],
      [run("reattach", "harnessC15", ["nothing-listening", "reattached", "test-mode", "refused-protocol", "real-process"],
           quick={"bound": "something listening or not x Reattach.Protocol in {\"\", netrpc, grpc} x Test flag x three allowed lists; pid-based reattach through the real cmdrunner.ReattachFunc / CmdAttachedRunner / pidWait (modelled ticker and signal-0 probe)"}),
-      run("test-mode", "harnessC15testMode", ["second-hand", "server-survives-kill", "stopped-by-context"], files=["prims.go", "w_base.go", "w_net.go", "w_yamux.go", "w_grpc.go", "w_compose.go", "w_harness.go"],
+      run("test-mode", "harnessC15testMode", ["second-hand", "server-survives-kill", "stopped-by-context"], files=WORLD,
           quick={"bound": "an in-process test-mode Serve (net/rpc and gRPC) x histories: reattach at first hand; take ReattachConfig from the reattached client and reattach at second hand; Kill on either; reattach again; cancel the context"}),
-      run("process", "harnessC15process", ["reattached", "reattach-after-death"], files=["prims.go", "w_base.go", "w_net.go", "w_yamux.go", "w_grpc.go", "w_compose.go", "w_harness.go"],
+      run("process", "harnessC15process", ["reattached", "reattach-after-death"], files=WORLD,
           quick={"bound": "a plugin process launched through exec.Cmd (net/rpc and gRPC): start, take the reattach config, reattach, dispense and call through both clients, kill via the reattached client, reattach after death"})],
      [NET, CTX, "os.FindProcess/Signal(0)/Kill modelled by a ghost process table; time.NewTicker on the symbolic clock; net.Dial succeeds iff something listens at the address",
       "composed runs: the world model of DESIGN.md section 4 (harness/w_*.go)"],
@@ -164,7 +164,7 @@ prop("C03", WORLD,
 
 # ------------------------------------------------------------------------------------------------ C12
 TLSC = "crypto/tls contract (trusted, not checked): a server presents Certificates[0]; with ClientAuth = RequireAndVerifyClientCert it accepts a client iff the client presents a certificate contained in ClientCAs (weaker ClientAuth values accept more, as documented); a client accepts a server iff InsecureSkipVerify or the server certificate is in RootCAs; a TLS end and a plaintext end never connect. Certificates are identities, pools are sets of identities."
-prop("C12", ["prims.go", "c12.go"],
+prop("C12", ["prims.go", "m_print.go", "c12.go"],
      [run("serve-wiring", "harnessC12serve", ["automtls", "plain"],
           quick={"bound": "plugin side, net/rpc: PLUGIN_CLIENT_CERT set or unset; the tls.Config reaching tls.NewListener compared field by field with the reference"}),
       run("intruders", "harnessC12", ["legit-works", "brokered-listeners", "intruders-refused"], files=WORLD,
@@ -180,7 +180,7 @@ prop("C12", ["prims.go", "c12.go"],
 # ------------------------------------------------------------------------------------------------ C18
 GRPCSEAM = "gRPC seam at the generated-code interfaces: Register*Server records the real implementation; grpc.Server.Serve accepts from its listener until stopped; Stop/GracefulStop close the listeners being served (documented); a unary call runs the registered real method in the peer process"
 YAMUX = "yamux model: a session is a pair of FIFO queues of streams; Open enqueues for the peer's Accept; Accept fails once the session is closed; in-order, loss-free (yamux's correctness is assumed)"
-prop("C18", ["prims.go", "c18.go"],
+prop("C18", ["prims.go", "m_print.go", "c18.go"],
      [run("lifecycle", "harnessC18", ["mux", "no-mux"],
           quick={"bound": "plugin side, gRPC, multiplexing on/off, no brokered listeners: a whole life cycle Serve -> host connects -> controller Shutdown -> Serve returns, against the ghost file system"}),
       run("world", "harnessC18world", ["dispensed", "host-serves", "plugin-serves", "host-listener-left-open", "clean"], files=WORLD,
